@@ -5,13 +5,14 @@ import math
 import numbers
 from typing import Dict
 
-from ..envdrive import Driver, gen_case_strategy, shipped_case_strategy, shipped_files, has_proxy, load_shipped
+from ..envdrive import Driver, folder_case_strategy, gen_case_strategy, shipped_case_strategy, shipped_files, has_proxy, load_shipped
 from ..harness import CaseResult, Ctx, hyp_run
 
 ID = "C01"
 WORKERS = {"quick": 8, "thorough": 16}
 RULE = (
-    "case = (scenario, op list): scenario is a shipped YAML (every loadable file with a proxy agent, "
+    "case = (scenario, op list): scenario is a shipped YAML (every loadable file with a proxy agent, or an "
+    "episode-scheduled scenario folder driven through more resets than its schedule has episodes, "
     "max_episode_length optionally overridden to 3/8/20) or a member of the generated LAN/ROUTED/DMZ families; ops are "
     "steps over the whole Discrete action space ignoring the mask (incl. entries aimed at missing or powered-off "
     "components), resets with/without seed, at most 3 steps past truncation. Non-trivial = >=1 state-changing "
@@ -118,3 +119,4 @@ def worker(ctx: Ctx):
     q = ctx.tier == "quick"
     hyp_run(ctx, gen_case_strategy(max_ops=30), run_case, 35 if q else 1200, sub=0)
     hyp_run(ctx, shipped_case_strategy(paths, max_ops=25), run_case, 12 if q else 500, sub=1)
+    hyp_run(ctx, folder_case_strategy(small_only=q, max_ops=24), run_case, 3 if q else 60, sub=2)
